@@ -369,21 +369,7 @@ func (s *c12Sys) enumerateCrashes(c *Case, durable *crashDB, b *c12Block, height
 	for _, w := range b.Writes {
 		changed[w.St] = true
 	}
-	// first unit that deletes the root of the last flushed version (height-1) in some store
-	pruneOfLastFlushed := -1
-	firstPrune := -1
-	for i, u := range units {
-		for _, d := range u.Deletes {
-			if strings.Contains(d, "/r") && firstPrune < 0 {
-				firstPrune = i
-			}
-			for si := range s.keys {
-				if d == iavlRootKey(s.keys[si].Name(), height-1) && pruneOfLastFlushed < 0 {
-					pruneOfLastFlushed = i
-				}
-			}
-		}
-	}
+	progKey := fmt.Sprintf("%d/%d/%d/%v", s.p.NStores, s.p.KeepRecent, s.p.KeepEvery, s.p.Blocks)
 	for k := 0; k <= W; k++ {
 		dbk := durable.clone()
 		rsk := s.open(dbk)
@@ -391,14 +377,31 @@ func (s *c12Sys) enumerateCrashes(c *Case, durable *crashDB, b *c12Block, height
 			return false, false, violf("C13/harness", "cannot open the pre-crash database at %d: %v", height-1, err)
 		}
 		dbk.armCrash(k)
-		// the doomed run: whatever it does after the k-th unit never reaches the disk
+		dbk.keepLog, dbk.log = true, nil
+		// the doomed run: whatever it does after the k-th unit never reaches the disk. The order in which
+		// substores commit is Go map order (rootmulti.commitStores), so each k sees one sampled order.
 		_ = catch(func() { s.apply(rsk, b, nil); rsk.Commit() })
+		admitted := dbk.stopLog()
 		dbk.revive()
+		// what reached the disk before the crash
+		prunedLastFlushed, prunedAny := false, false
+		for _, u := range admitted {
+			for _, d := range u.Deletes {
+				for si := range s.keys {
+					name := s.keys[si].Name()
+					if strings.HasPrefix(d, "s/k:"+name+"/r") {
+						prunedAny = true
+					}
+					if d == iavlRootKey(name, height-1) {
+						prunedLastFlushed = true
+					}
+				}
+			}
+		}
 
 		nt := k > 0 && k < W && len(changed) >= 2
-		ntPrune := firstPrune >= 0 && k > firstPrune && k < W
-		key := fmt.Sprintf("h%d k%d/%d %v", height, k, W, units)
-		c.Eval(key, nt || ntPrune)
+		ntPrune := prunedAny && k < W
+		c.Eval(fmt.Sprintf("%s h%d k%d/%d", progKey, height, k, W), nt || ntPrune)
 		inside2 = inside2 || nt
 		afterPrune = afterPrune || ntPrune
 
@@ -407,7 +410,7 @@ func (s *c12Sys) enumerateCrashes(c *Case, durable *crashDB, b *c12Block, height
 		res := catch(func() { err = rs2.LoadLatestVersion() })
 		if res.panicked || err != nil {
 			sig := "C13/reopen-fails-after-crash"
-			if pruneOfLastFlushed >= 0 && k > pruneOfLastFlushed && k < W {
+			if prunedLastFlushed && k < W {
 				// known finding #9: the version the commit info still points at was pruned before the flush
 				sig = "C13/reopen-fails-after-crash/last-flushed-version-pruned-before-flush"
 				if c.Known(sig) {
